@@ -20,6 +20,30 @@ def self_field(e, name):
     return isinstance(e, tuple) and e[0] == "field" and e[-1] == name and mir.strip_refs(e[1]) == ("arg", "self")
 
 
+SELECTORS = ("Iterator::max_by_key", "Iterator::min_by_key", "Iterator::max_by", "Iterator::min_by", "Iterator::max", "Iterator::min", "Iterator::last")
+
+
+def selection_over_pending(sym, e):
+    """e = <selector>( [Rev](Range{self.index + c, len(scored_moves)}) [, key closure] ): an element of the pending range,
+    None exactly when that range is empty (index + c >= len)."""
+    e = mir.strip_copies(e)
+    if e[0] == "call" and e[1].endswith("Try>::branch") and e[2]:
+        e = mir.strip_copies(e[2][0])
+    if not (e[0] == "call" and isinstance(e[1], str) and e[1].endswith(SELECTORS) and e[2]):
+        return None
+    it = mir.strip_copies(e[2][0])
+    while it[0] == "call" and it[1] in ("std::iter::Iterator::rev", "<I as std::iter::IntoIterator>::into_iter") and it[2]:
+        it = mir.strip_copies(it[2][0])
+    if not (it[0] == "agg" and isinstance(it[1], str) and it[1].endswith("ops::Range") and len(it[3]) == 2):
+        return None
+    st, en = it[3]
+    off = 0 if self_field(st, "index") else (st[3][1] if st[0] == "bin" and st[1].startswith("Add") and self_field(st[2], "index") and st[3][0] == "const" and st[3][1] >= 0 else None)
+    end_ok = en[0] == "call" and en[1].endswith("Vec::len") and self_field(mir.strip_refs(en[2][0]), "scored_moves")
+    if off is None or not end_ok:
+        return None
+    return off, (e[2][1] if len(e[2]) > 1 else None)
+
+
 def rule_permutation(ctx):
     """MoveOrderer yields every move of its input exactly once."""
     ix = ctx.ix
@@ -28,12 +52,23 @@ def rule_permutation(ctx):
     # (1) None iff index == len
     nones = [bi for bi, i, s in b.stmts() if mir.is_local(s["lhs"]) and s["lhs"]["l"] == 0 and s["rv"].get("k") == "agg" and s["rv"].get("variant") == "None"]
     somes = [bi for bi, i, s in b.stmts() if mir.is_local(s["lhs"]) and s["lhs"]["l"] == 0 and s["rv"].get("k") == "agg" and s["rv"].get("variant") == "Some"]
-    ok = len(nones) == 1 and len(somes) == 1
+    q_nones = [bi for bi, t in b.calls() if t["k"] == "call" and mir.is_local(t["dest"]) and t["dest"]["l"] == 0 and "FromResidual" in (t.get("callee") or "") and "Option" in (t.get("callee") or "")]
+    if not nones and len(q_nones) == 1 and len(somes) == 1:
+        # `let best = (index..len).rev().max_by_key(..)?;`: None is returned exactly when the selection over the pending
+        # range yields nothing, i.e. when the range index..len is empty
+        cons = C.constraints_for(ix, b, sym, q_nones[0])
+        sel = [selection_over_pending(sym, c[3][1]) for c in cons if c[3][0] == "discr"]
+        okq = len(cons) == 1 and sel and sel[0] is not None and sel[0][0] == 0
+        ctx.check(okq, "next:None-iff-exhausted", "next() returns None exactly when the pending range index..len is empty (the `?` on the selection over it)", b.where(q_nones[0]),
+                  bad_what="next() does not return None exactly when index..scored_moves.len() is empty")
+        nones = None
+    ok = nones is not None and len(nones) == 1 and len(somes) == 1
     if ok:
         cons = C.constraints_for(ix, b, sym, nones[0])
         ok = len(cons) == 1 and cons[0][3][0] == "bin" and cons[0][3][1] == "Eq" and self_field(cons[0][3][2], "index") and cons[0][3][3][0] == "call" and cons[0][3][3][1].endswith("Vec::len") and self_field(mir.strip_refs(cons[0][3][3][2][0]), "scored_moves") and True in cons[0][1]
-    ctx.check(ok, "next:None-iff-exhausted", "next() returns None exactly when index == scored_moves.len()", b.where(nones[0] if nones else 0),
-              bad_what="next() does not return None exactly on `index == scored_moves.len()` (e.g. stops one element early and drops the last move)")
+    if nones is not None:
+        ctx.check(ok, "next:None-iff-exhausted", "next() returns None exactly when index == scored_moves.len()", b.where(nones[0] if nones else 0),
+                  bad_what="next() does not return None exactly on `index == scored_moves.len()` (e.g. stops one element early and drops the last move)")
     # (2) the only mutation of the vector is one swap(index, best) with best in [index, len)
     e = eff(ix)
     muts = sorted(how for (path, how) in e.writes(NEXT) if path and path[0] == "scored_moves")
@@ -60,6 +95,8 @@ def rule_permutation(ctx):
             elif v[0] == "field" and v[-1] == "0" and v[1][0] == "as" and v[1][2] == "Some" and range_from_index(sym, v[1][1]):
                 kinds.append("range")
             elif v[0] == "field" and v[2:] == ("0", "0") and v[1][0] == "as" and v[1][2] == "Some" and enumerate_skip_from_index(sym, v[1][1]):
+                kinds.append("range")
+            elif v[0] == "field" and v[-1] == "0" and v[1][0] == "as" and v[1][2] in ("Continue", "Some") and selection_over_pending(sym, v[1][1]) is not None:
                 kinds.append("range")
             else:
                 kinds.append("other:" + expr_str(v)[:60])
@@ -182,6 +219,7 @@ def rule_noninterference(ctx):
     """Scores influence only which pending slot is chosen next."""
     ix = ctx.ix
     b = ctx.body(NEXT)
+    sym = ctx.sym(b)
     tainted = set()
     changed = True
     while changed:
@@ -218,8 +256,23 @@ def rule_noninterference(ctx):
                 p = op_place(o)
                 if p is not None and p["l"] in tainted:
                     bad.append(("store to %s" % mir.pstr(s["lhs"]), s.get("line")))
-    ctx.check(not bad and tainted, "next:scores-only-compared", "values read from .score (%d temporaries) are only compared with each other" % len(tainted), b.where(0),
-              bad_what="a score value flows into %s: ordering data can change which moves are returned" % bad)
+    if not tainted and not bad:
+        # the scores are read only inside the key closure of a selection over the pending range
+        keyed = False
+        for bi, t in b.calls():
+            if (t.get("callee") or "").endswith(SELECTORS) and len(t["args"]) == 2:
+                clo = sym.operand(t["args"][1])
+                if clo[0] == "closure" and clo[1] in ix.bodies:
+                    r = mir.Sym(ix.bodies[clo[1]], ix).local(0)
+                    if r[0] == "field" and r[-1] == "score":
+                        keyed = True
+                        ctx.functions.add(clo[1])
+        if keyed:
+            ctx.ok("next:scores-only-compared", "scores are read only as the key of the selection over the pending range", b.where(0))
+            tainted = None
+    if tainted is not None:
+      ctx.check(not bad and tainted, "next:scores-only-compared", "values read from .score (%d temporaries) are only compared with each other" % len(tainted), b.where(0),
+                bad_what="a score value flows into %s: ordering data can change which moves are returned" % bad)
     sm = ctx.body(SCORE_MOVE)
     ctx.check(sm.locals[0]["ty"] == "u64", "score_move:returns-number", "score_move (killers, cached best move, MVV-LVA) returns only a number", sm.where(0), bad_what="score_move returns %s" % sm.locals[0]["ty"])
 
